@@ -193,11 +193,15 @@ def cv_masked_kernels():
     imask = []
 
     def guard(test):
-        if isinstance(test, ast.Compare) and len(test.ops) == 1 and type(test.ops[0]) in CMP and text(test.left) in sizes:
-            rhs = pw.expr(test.comparators[0], {})
-            if rhs.ty != INT:
-                raise pw.bad(test, "a size compared with something that is not an int")
-            return pw.t.mk_cmp(CMP[type(test.ops[0])], sizes[text(test.left)], rhs)
+        if isinstance(test, ast.Compare) and len(test.ops) == 1 and type(test.ops[0]) in CMP:
+            sides = []
+            for x in (test.left, test.comparators[0]):
+                e = sizes[text(x)] if text(x) in sizes else pw.expr(x, {})
+                if e.ty != INT or pw.is_array(e):
+                    raise pw.bad(test, "a size compared with something that is not a scalar int")
+                sides.append(e)
+            if text(test.left) in sizes or text(test.comparators[0]) in sizes:
+                return pw.t.mk_cmp(CMP[type(test.ops[0])], sides[0], sides[1])
         raise pw.bad(test, "the guards of the first loop are tests of `p_mask.size` / `q_mask.size`")
 
     def walk(stmts, cond, nan):
